@@ -439,6 +439,7 @@ fn run_zone(rep: &Report, ctx: &Ctx, x: &Ix, zc: &ZoneCase, shard: u64, max_tran
                     }
                 }
             }
+            Err(e) if e.starts_with(tzchild::SPAWN_FAILED) => loc.rep.harness_error(format!("C05 public route: {}", e)),
             Err(e) => loc.violation(&format!("C05/public-route/{}/child-died", zc.kind), json!({"zone": zc.label, "tz": tzv, "error": e})),
         }
     }
